@@ -478,7 +478,7 @@ func maxCellWidth(m Matrix, c rune, printed, prec int, w widther) ([]byte, int) 
 		max        int
 	)
 	for i := 0; i < rows; i++ {
-		if i >= printed-1 && i < rows-printed && 2*printed < rows {
+		if i >= printed && i < rows-printed && 2*printed < rows {
 			i = rows - printed - 1
 			continue
 		}
